@@ -101,6 +101,12 @@ func c31Gen(rng *core.Rng, tier string) *harness.Plan {
 	default:
 		p.Params["txs"], p.Params["inputs"], p.Params["keys"] = int64(34+rng.IntN(3)), 256, 64
 	}
+	if rng.Chance(0.5) {
+		// storage mode: a dozen transactions of (up to exactly) the maximum transaction size, 4 MiB signed
+		p.Params["storage"] = 1
+		p.Params["txs"] = int64(9 + rng.IntN(5))
+		p.Params["exact_ppm"] = int64(400000 + rng.IntN(600000))
+	}
 	if tier != "thorough" {
 		// quick: stop once the proposer's batch frames have been measured (the
 		// other nodes would spend minutes verifying half a million signatures)
@@ -132,6 +138,9 @@ func c31Exec(p *harness.Plan) *harness.Outcome {
 	if err != nil {
 		r.out.ToolError = err.Error()
 		return r.out
+	}
+	if p.P("storage", 0) == 1 {
+		return c31Storage(r, p, mon, inj, quick, targetIdx)
 	}
 	nTx, nIn, nKeys := int(p.P("txs", 34)), int(p.P("inputs", 256)), int(p.P("keys", 64))
 	owners := make([]int, nKeys)
@@ -299,6 +308,135 @@ func c31Exec(p *harness.Plan) *harness.Outcome {
 	r.out.Probes["payload_bytes_offered"] += payloadTotal
 	relabelPanic(r, "C31")
 	return r.finish(admitted > 1 && mon.bundles > 0, map[string]any{"txs": nTx, "inputs": nIn, "keys": nKeys, "admitted": admitted, "finalized": fin, "max_frame": mon.maxSeen, "max_txs_in_frame": mon.maxTxs, "signed_total": signedTotal, "payload_total": payloadTotal, "max_frame_to_payload_ratio": mon.maxRatio})
+}
+
+// c31Storage: storage transactions (XIN, one-key fffe40 output paying for the extra) whose SIGNED size
+// is the maximum transaction size or just below it, admitted on one node within one queue cycle. The
+// batcher must close its batches so that bundle and challenge frames, with their framing, fit.
+func c31Storage(r *crun, p *harness.Plan, mon *c31Mon, inj *injector, quick bool, targetIdx int) *harness.Outcome {
+	c := r.c
+	rng := core.NewRng(core.SplitMix64(p.Seed ^ 0x5707))
+	nTx := int(p.P("txs", 10))
+	target := c.Nodes[targetIdx]
+	chain := 0
+	var setup []*injected
+	coins := make([]*cluster.Coin, nTx)
+	for i := 0; i < nTx; i++ {
+		dep, coin := c.MakeDeposit(cluster.AssetXIN, common.NewIntegerFromString("1"), fmt.Sprintf("c31s-%d-%d", p.Seed%997, i), 0, []int{0}, 1)
+		coins[i] = coin
+		inj.now = c.NowNano()
+		it, err := inj.nextWith(chain%inj.n, false, dep)
+		chain++
+		if err != nil {
+			continue
+		}
+		for to := 0; to < inj.n; to++ {
+			if quick && to != targetIdx {
+				continue
+			}
+			inj.deliver(c.External(), c.Nodes[to], it.tx, it.snap, time.Duration(to)*time.Millisecond)
+		}
+		setup = append(setup, it)
+		c.Run(c.Q.Now + 150*time.Millisecond)
+	}
+	ready := func() bool {
+		for _, it := range setup {
+			if quick {
+				if !c.FinalizedOn(target, it.tx.PayloadHash()) {
+					return false
+				}
+			} else if !c.FinalizedEverywhere(it.tx.PayloadHash()) {
+				return false
+			}
+		}
+		return len(setup) == nTx
+	}
+	for tries := 0; tries < 60 && !ready() && !c.Halt; tries++ {
+		c.Run(c.Q.Now + time.Second)
+	}
+	if c.Halt || !ready() {
+		if !c.Halt {
+			r.out.ToolError = "ledger setup by injection did not finalize"
+		}
+		relabelPanic(r, "C31")
+		return r.finish(false, nil)
+	}
+	max := 4 * 1024 * 1024
+	build := func(i, extra int) *common.VersionedTransaction {
+		tx := common.NewTransactionV5(common.XINAssetId)
+		tx.AddInput(coins[i].Tx, coins[i].Index)
+		sh := crypto.Blake3Hash([]byte(fmt.Sprintf("c31store%d", i)))
+		tx.AddScriptOutput([]*common.Address{c.User(1)}, common.NewThresholdScript(64), coins[i].Amount, append(sh[:], sh[:]...))
+		tx.Extra = make([]byte, extra)
+		rng.Bytes(tx.Extra[:64])
+		signed := &common.SignedTransaction{Transaction: *tx}
+		if err := signed.SignUTXO(coins[i].UTXO, []*common.Address{c.User(0)}); err != nil {
+			panic(err)
+		}
+		return signed.AsVersioned()
+	}
+	var bigs []*common.VersionedTransaction
+	signedTotal, exact := 0, 0
+	for i := 0; i < nTx; i++ {
+		want := max
+		if !rng.Chance(float64(p.P("exact_ppm", 600000)) / 1e6) {
+			want = max - 1 - rng.IntN(200000)
+		}
+		probe := build(i, max-4096)
+		extra := max - 4096 + (want - len(probe.Marshal()))
+		tx := build(i, extra)
+		if d := want - len(tx.Marshal()); d != 0 {
+			tx = build(i, extra+d)
+		}
+		if len(tx.Marshal()) == max {
+			exact++
+		}
+		signedTotal += len(tx.Marshal())
+		bigs = append(bigs, tx)
+	}
+	spread := time.Duration(p.P("spread_ms", 300)) * time.Millisecond
+	admitted := 0
+	for _, b := range bigs {
+		if c.Halt {
+			break
+		}
+		if quick {
+			c.Inject(c.External(), target, buildTxBundle([]*common.VersionedTransaction{b}, false), 0)
+			admitted++
+		} else if _, err := c.Submit(target, b); err == nil {
+			admitted++
+			r.accepted = append(r.accepted, b.PayloadHash())
+		}
+		c.Run(c.Q.Now + spread/time.Duration(len(bigs)))
+	}
+	fin := 0
+	if quick {
+		deadline := c.Q.Now + 30*time.Second
+		for !c.Halt && c.Q.Now < deadline && mon.challenges == 0 {
+			c.Run(c.Q.Now + 200*time.Millisecond)
+		}
+		if !c.Halt {
+			c.Run(c.Q.Now + 2*time.Second)
+		}
+	} else {
+		if !c.Halt {
+			c.Run(c.Q.Now + 20*time.Second)
+		}
+		if !c.Halt {
+			fin, _ = r.settle(60*time.Second, false)
+		}
+	}
+	r.out.Probes["storage_transactions_admitted"] += admitted
+	r.out.Probes["storage_transactions_of_exactly_the_maximum_size"] += exact
+	r.out.Probes["big_transactions_finalized"] += fin
+	r.out.Probes["frames_measured"] += mon.frames
+	r.out.Probes["bundle_frames"] += mon.bundles
+	if mon.maxSeen > p2p.TransportMessageMaxSize/2 {
+		r.out.Probes["runs_with_a_frame_above_half_the_limit"]++
+	}
+	r.out.Probes["signed_bytes_offered"] += signedTotal
+	relabelPanic(r, "C31")
+	return r.finish(admitted > 1 && mon.bundles > 0, map[string]any{"mode": "storage", "txs": nTx, "exactly_max": exact, "admitted": admitted, "finalized": fin, "max_frame": mon.maxSeen, "max_txs_in_frame": mon.maxTxs, "signed_total": signedTotal})
 }
 
 func storerigUTXO(ver *common.VersionedTransaction, i int) *common.UTXO {
